@@ -3,6 +3,7 @@ package suites
 import (
 	"fmt"
 	"math/rand"
+	"os"
 	"runtime"
 	"sort"
 	"strconv"
@@ -401,6 +402,7 @@ const trEndToken = "c06end"
 // abandoned by the watchdog (nothing at all progressed for c06StallLimit; the trace may then
 // lack late actions).  No wait in here ends because time has passed.
 func trRun(sc *trScenario, seed int64, procs int) (obs []trAct, stalled bool) {
+	c06DumpUsable() // its self-test must run while no handler of a scenario is around
 	prev := runtime.GOMAXPROCS(procs)
 	defer runtime.GOMAXPROCS(prev)
 
@@ -566,6 +568,7 @@ func trRun(sc *trScenario, seed int64, procs int) (obs []trAct, stalled bool) {
 		s.Peer.SetWriteDeadline(time.Now().Add(2 * c06StallLimit)) // the client reads nothing for two minutes
 		if s.Send(line) != nil {
 			timedOut = true
+			trStall(1)
 			break
 		}
 	}
@@ -580,6 +583,7 @@ func trRun(sc *trScenario, seed int64, procs int) (obs []trAct, stalled bool) {
 		}
 	}, progress, c06StallLimit) {
 		timedOut = true
+		trStall(2)
 	}
 	if sc.hangup {
 		// The server hangs up.  readLoop queues every line it was sent before it sees the end
@@ -604,6 +608,7 @@ func trRun(sc *trScenario, seed int64, procs int) (obs []trAct, stalled bool) {
 			return returned
 		}, progress, c06StallLimit) {
 			timedOut = true
+			trStall(3)
 		}
 		stopped = returned
 	} else {
@@ -611,6 +616,7 @@ func trRun(sc *trScenario, seed int64, procs int) (obs []trAct, stalled bool) {
 		s.Peer.SetWriteDeadline(time.Now().Add(2 * c06StallLimit))
 		if s.Send("PING :"+trEndToken) != nil {
 			timedOut = true
+			trStall(4)
 		}
 		if !c06Await(func() bool {
 			for _, l := range s.Since(0) {
@@ -621,12 +627,14 @@ func trRun(sc *trScenario, seed int64, procs int) (obs []trAct, stalled bool) {
 			return false
 		}, progress, c06StallLimit) {
 			timedOut = true
+			trStall(5)
 		}
 	}
 	// background handlers, AddTmp wrappers and deadline goroutines: wait until no goroutine is
 	// busy with handler dispatch any more
 	if !c06Idle(progress) {
 		timedOut = true
+		trStall(6)
 	}
 	// a done channel that is closed by now has been seen closed by its watcher before the
 	// trace is taken
@@ -641,6 +649,7 @@ func trRun(sc *trScenario, seed int64, procs int) (obs []trAct, stalled bool) {
 		case <-done:
 			if !c06Await(func() bool { return log.closedSeen(h) }, progress, c06StallLimit) {
 				timedOut = true
+				trStall(7)
 			}
 		default:
 		}
@@ -1221,6 +1230,11 @@ func genTraceScenario(r *rand.Rand) *trScenario {
 	return sc
 }
 
+// trStall reports on stderr where a wait was given up (diagnosis only).
+func trStall(site int) {
+	fmt.Fprintf(os.Stderr, "c06: dispatch.trace: wait %d abandoned by the watchdog at %s\n", site, time.Now().Format("15:04:05"))
+}
+
 var trStalls int // scenarios that stalled twice in a row; after two of them no further scenario is run
 
 // genHangupScenario: handler 0 is a foreground wildcard handler whose function, on event 0,
@@ -1269,7 +1283,11 @@ func genTraceCase(r *rand.Rand) Case {
 		sc = &trScenario{recover: true, timedOut: true}
 		return trEncode(sc, nil, nil)
 	}
+	t0 := time.Now()
 	obs, stalled := trRun(sc, seed, procs)
+	if d := time.Since(t0); d > 5*time.Second {
+		fmt.Fprintf(os.Stderr, "c06: dispatch.trace: a scenario took %s (hangup=%v, %d handlers, %d events, GOMAXPROCS %d)\n", d, sc.hangup, len(sc.handlers), len(sc.events), procs)
+	}
 	if stalled {
 		// a suspected stall is re-run once, on a fresh client, before it is reported
 		obs, stalled = trRun(sc, seed, procs)
@@ -1277,6 +1295,7 @@ func genTraceCase(r *rand.Rand) Case {
 	if stalled {
 		trStalls++
 		sc.timedOut = true
+		trStall(8)
 	}
 	return trEncode(sc, c06Guess(sc, obs), obs)
 }
